@@ -4,6 +4,7 @@
 package lang
 
 import (
+	"github.com/lmorg/murex/builtins/pipes/streams"
 	"github.com/lmorg/murex/lang/state"
 )
 
@@ -119,6 +120,16 @@ func runModeTryPipe(procs *[]Process, tryPipeErr bool) (exitNum int) {
 	}
 
 	for i := 0; i < len(*procs); i++ {
+		// The command this one pipes into only starts once this one has
+		// finished, so nobody reads that pipe until then: with the usual
+		// back-pressure limit a command that writes more than the limit
+		// would wait for room forever.
+		if i+1 < len(*procs) && (*procs)[i+1].IsMethod {
+			if stdin, ok := (*procs)[i+1].Stdin.(*streams.Stdin); ok {
+				stdin.SetMaxBufferSize(0)
+			}
+		}
+
 		go executeProcess(&(*procs)[i])
 		waitProcess(&(*procs)[i])
 
